@@ -102,6 +102,25 @@ instance (a : SpMat) (lr lc : List Nat) (k : Nat) (agg : List (List Rat)) (tol :
     Decidable (AggOK a lr lc k agg tol) := by
   unfold AggOK; infer_instance
 
+/-- The clause of C05 about secondary outputs, for the outputs `s` computed from the input matrix `a`
+    (`nCol` columns) and the fitted labels `f` (exact arithmetic, tolerance 0):
+    what was not asked for is absent; `probs_` (and `probs_row_`, `probs_col_` for a bipartite graph) are soft
+    memberships over the `k` labels; `aggregate_` holds the sums of weights between clusters and its total is the
+    total weight of the input. -/
+def SecondaryOK (a : SpMat) (nCol : Nat) (f : Fitted) (bipartite returnProbs returnAggregate : Bool)
+    (s : Secondary) : Prop :=
+  let lr := f.labels
+  let lc := if bipartite then f.labelsCol.getD [] else f.labels
+  let k := if bipartite then nLabels (lr ++ lc) else nLabels lr
+  (if returnProbs then
+      ∃ P, s.probs = some P ∧ ProbsOK a P k 0 ∧
+        (if bipartite then s.probsRow = some P ∧ ∃ Pc, s.probsCol = some Pc ∧ ProbsOK (transposeSp a nCol) Pc k 0
+         else s.probsRow = none ∧ s.probsCol = none)
+    else s.probs = none ∧ s.probsRow = none ∧ s.probsCol = none) ∧
+  (if returnAggregate then
+      ∃ G, s.aggregate = some G ∧ AggOK a lr lc k G 0 ∧ sumAll G = totalWeight a
+    else s.aggregate = none)
+
 /-! ### k-centers -/
 
 /-- node `c` may be a centre -/
